@@ -102,10 +102,14 @@ impl Scope {
   }
   /// Pushes a context on the top of the scope stack.
   pub fn push(&self, ctx: FeelContext) {
+    #[cfg(dmntk_verif)]
+    crate::verif::sched_point();
     self.contexts.borrow_mut().push(ctx)
   }
   /// Takes and returns a context from the top of the stack.
   pub fn pop(&self) -> Option<FeelContext> {
+    #[cfg(dmntk_verif)]
+    crate::verif::sched_point();
     self.contexts.borrow_mut().pop()
   }
   /// Peeks a to context from the top of the stack.
